@@ -94,7 +94,7 @@ MODULE_NAMES = ["nodejs", "postgresql", "perl-App-cpanminus", "389-ds", "virt"]
 STREAMS = ["10", "9.6", "rhel", "1.4", "master"]
 
 
-def module_add(rng, variants=VARIANTS, arches=None, invalid=0.25):
+def module_add(rng, variants=VARIANTS, arches=None, invalid=0.25, memo=None):
     arches = arches or pools.ARCHES[:3] + ["src"]
     parts = [pick(rng, MODULE_NAMES), pick(rng, STREAMS)]
     n = rng.choice([2, 3, 4])
@@ -102,7 +102,15 @@ def module_add(rng, variants=VARIANTS, arches=None, invalid=0.25):
         parts.append(pick(rng, ["20180816142114", "820181213140247", "1"]))
     if n >= 4:
         parts.append(pick(rng, ["6c81f848", "9edba152", "c0ffee42"]))
-    op = {"op": "add", "variant": pick(rng, variants), "arch": pick(rng, arches), "uid": ":".join(parts),
+    v0, a0, uid0 = pick(rng, variants), pick(rng, arches), ":".join(parts)
+    if memo is not None:
+        if memo and rng.random() < 0.4:
+            # the same module filed again (another category, more RPMs): its RPM list is EXTENDED, in caller order
+            v0, a0, uid0 = pick(rng, memo)
+            parts = uid0.split(":")
+        else:
+            memo.append((v0, a0, uid0))
+    op = {"op": "add", "variant": v0, "arch": a0, "uid": uid0,
           "koji_tag": pick(rng, ["module-%s-%s" % (parts[0], parts[1]), "tag-1"]),
           "modulemd_path": "%s/%s/os/repodata/modules.yaml.gz" % (pick(rng, variants), pick(rng, arches)),
           "category": pick(rng, ["binary", "debug", "source"]),
@@ -181,12 +189,13 @@ def history(rng, machine, n, invalid=0.25, restarts=0.0, slot=0):
     variants = subset(rng, VARIANTS, 1, 3)
     arches = subset(rng, pools.ARCHES, 1, 3)
     srpms = []
+    memo = []
     path = FILES[machine]
     for _ in range(n):
         if machine == "M-RP":
             ops.append(rpm_add(rng, variants, arches, invalid, srpms))
         elif machine == "M-MO":
-            ops.append(module_add(rng, variants, arches + (["src"] if rng.random() < 0.2 else []), invalid))
+            ops.append(module_add(rng, variants, arches + (["src"] if rng.random() < 0.2 else []), invalid, memo))
         else:
             ops.append(extra_add(rng, variants, arches, invalid))
             if rng.random() < 0.25:
